@@ -311,13 +311,28 @@ def main(prop, tier, seed, only_facets=None):
             results.append(run_task(*t))
     else:
         mp = multiprocessing.get_context("spawn")
-        with concurrent.futures.ProcessPoolExecutor(max_workers=workers, mp_context=mp) as ex:
+        budget = float(os.environ.get("VERIF_BUDGET_S", "900" if tier == "quick" else "14400"))
+        ex = concurrent.futures.ProcessPoolExecutor(max_workers=workers, mp_context=mp)
+        try:
             futs = [ex.submit(run_task, *t) for t in tasks]
+            done, not_done = concurrent.futures.wait(futs, timeout=budget)
             for fu, t in zip(futs, tasks):
+                if fu in not_done:
+                    harness_errors.append("inconclusive: %s[%d] exceeded the %.0f s budget" % (t[3], t[4], budget))
+                    continue
                 try:
                     results.append(fu.result())
                 except Exception as e:  # noqa: BLE001  (worker died)
                     harness_errors.append("worker for %s[%d] died: %s" % (t[3], t[4], e))
+        finally:
+            procs = list(getattr(ex, "_processes", {}).values())
+            ex.shutdown(wait=False, cancel_futures=True)
+            for pr in procs:
+                try:
+                    if pr.is_alive():
+                        pr.kill()
+                except Exception:  # noqa: BLE001
+                    pass
 
     # 3. merge
     evaluations = 0
